@@ -347,6 +347,22 @@ class Interp:
                 'die_if_unbearable': (doorfunc._HINT_CONF_EXCEPTION_PREFIX_TO_FUNC_RAISER, 'die_if_unbearable() ')}, \
             _hint_repr_to_hint._key_to_value
 
+    def bt_repr(self, h) -> str:
+        """The key under which coerce_hint_any() files `h`: `get_hint_repr(h)`, which is memoised by `==` — a hint
+        that == an earlier-seen one (`str | int` after `Union[str, int]`) is filed under the EARLIER one's repr.
+        Read from the memo dictionary of get_hint_repr; nothing of beartype is called."""
+        try:
+            from beartype._util.hint.utilhintget import get_hint_repr
+            cells = dict(zip(get_hint_repr.__code__.co_freevars, get_hint_repr.__closure__ or ()))
+            if 'args_flat_to_return_value' in cells:
+                d = cells['args_flat_to_return_value'].cell_contents
+            else:
+                d = cells['args_flat_to_return_value_get'].cell_contents.__self__
+            v = d.get(h)
+        except Exception:                             # noqa: BLE001 - unhashable hint, other memo layout
+            v = None
+        return v if isinstance(v, str) else repr(h)
+
     def observe_bear_before(self, api, h, he, cf):
         tabs, reprt = self.tables()
         tab, prefix = tabs[api]
@@ -355,7 +371,7 @@ class Interp:
             hashable = True
         except TypeError:
             hit, hashable = False, False
-        r = repr(h)
+        r = self.bt_repr(h)
         f = self.fp(he)
         fps = self.repr_seen.setdefault(r, set())
         collide = False
